@@ -83,22 +83,34 @@ def compute(prog, rep):
         i = ("idx", f"{L.lineno}:{L.col_offset}", "range", (("const", 1), ("bin", "+", nmodes, ("const", 1))))
         nz = ("call", G("numpy.nonzero"), (("cmp", "==", labeled, i),), ())
         CCs = [s for s in cfg.all_stmts() if isinstance(s, ast.Assign) and isinstance(s.targets[0], ast.Attribute) and s.targets[0].attr == "cell_center_coordinates"]
+        CC = b.term(CCs[0].value, CCs[0]) if len(CCs) == 1 else None
+
+        def dim_index(it, lid):
+            """index term of a per-dimension iteration: enumerate(nonzero), zip(grids, nonzero), range(n_dim / len(...))"""
+            if it == ("call", G("enumerate"), (nz,), ()):
+                return ("idx", lid, "enumerate")
+            if it[0] == "call" and it[1] == G("zip") and len(it[2]) == 2 and not it[3] and CC is not None and set(it[2]) == {CC, nz}:
+                return ("idx", lid, "zip")
+            if it[0] == "call" and it[1] == G("range") and not it[3] and it[2] in ((nd,), (("call", G("len"), (nz,), ()),), (("call", G("len"), (CC,), ()),)):
+                return ("idx", lid, "range", it[2])
+            return None
+
         for st in ast.walk(L):
             if isinstance(st, ast.ListComp):
                 holder = next((s for s in cfg.all_stmts() if any(n_ is st for n_ in ast.walk(s)) and not isinstance(s, (ast.For, ast.If, ast.While))), None)
                 if holder is None:
                     continue
                 t = b.term(st, holder)
-                if t[0] == "comp" and t[4] == ("call", G("enumerate"), (nz,), ()):
-                    d = ("idx", t[3], "enumerate")
+                d = dim_index(t[4], t[3]) if t[0] == "comp" else None
+                if d is not None:
                     a = t[2]
                     okc = a[0] == "sub" and a[2] == ("sub", nz, d) and a[1][0] == "sub" and a[1][2] == d and len(CCs) == 1 and b.term(CCs[0].value, CCs[0]) == a[1][1]
                     why = f"the coordinate of dimension d must be cell_center_coordinates[d][indices_d] with d and indices_d from the SAME enumeration of np.nonzero(labeled == i); found {show(a)[:160]}"
         inner = [s for s in ast.walk(L) if isinstance(s, ast.For) and s is not L]
         for il in inner:
             it = b.term(il.iter, il)
-            if it == ("call", G("enumerate"), (nz,), ()):
-                d = ("idx", f"{il.lineno}:{il.col_offset}", "enumerate")
+            d = dim_index(it, f"{il.lineno}:{il.col_offset}")
+            if d is not None:
                 for st in il.body:
                     if isinstance(st, ast.Expr) and isinstance(st.value, ast.Call) and isinstance(st.value.func, ast.Attribute) and st.value.func.attr == "append":
                         a = b.term(st.value.args[0], st)
